@@ -295,13 +295,15 @@ def dict_workbook(sheets, extra=None):
     return wb
 
 
-def grids_to_xlsx(grids) -> bytes:
+def grids_to_xlsx(grids, hidden=()) -> bytes:
     from openpyxl import Workbook
 
     book = Workbook()
     book.remove(book.active)
     for name, g in grids:
         ws = book.create_sheet(title=name[:31])
+        if name in hidden:
+            ws.sheet_state = "hidden"      # authors hide the advanced sheets once they are set up; a hidden sheet is still a sheet
         for ri, line in enumerate(g, start=1):
             render.xlsx_row(ws, ri, line)
     buf = io.BytesIO()
